@@ -71,6 +71,9 @@ impl<T> RcDeref for MutArc<T> {
 
   #[inline]
   fn rc_deref(&self) -> Self::Ref<'_> {
+    #[cfg(feature = "verif_hooks")]
+    return crate::verif::lock(&self.0);
+    #[cfg(not(feature = "verif_hooks"))]
     self.0.lock().unwrap()
   }
 }
@@ -91,6 +94,9 @@ impl<T> RcDerefMut for MutArc<T> {
 
   #[inline]
   fn rc_deref_mut(&self) -> Self::MutRef<'_> {
+    #[cfg(feature = "verif_hooks")]
+    return crate::verif::lock(&self.0);
+    #[cfg(not(feature = "verif_hooks"))]
     self.0.lock().unwrap()
   }
 }
